@@ -86,3 +86,8 @@ package dmarc
 //@   prop C07 C06
 //@   modifies v.fetchCancel, chans()
 //@   noframe
+
+// NewVerifier only builds a verifier object (used by the pipeline's Start under C03).
+//@ func NewVerifier
+//@   prop C03 C06
+//@   ensures result != nil && fresh(result)
